@@ -33,7 +33,9 @@ export function hashStr(s) {
 }
 
 export const HTML_TAGS = ['div', 'span', 'p', 'a', 'input', 'button', 'ul', 'li', 'section', 'h1', 'label', 'form'];
-export const SVG_TAGS = ['svg', 'path', 'circle', 'g', 'rect'];
+export const SVG_TAGS = ['svg', 'path', 'circle', 'g', 'rect', 'clipPath', 'foreignObject', 'feGaussianBlur', 'font-face', 'missing-glyph'];
+import fs from 'node:fs';
+export const ALL_TAGS = JSON.parse(fs.readFileSync(new URL('./tags.json', import.meta.url), 'utf8'));
 
 export const STD_MODULES = {
   'probe:C0': { default: { k: 'comp', id: 'C0' } },
